@@ -18,11 +18,15 @@ from props import c08_hist
 
 PROP = "C08"
 LEVEL = "proof"
-GEN_UNITS = []
-COQ_TARGETS = ["Props/C08.vo", "Props/C08b.vo", "Props/C08c.vo", "Model/C08Inst.vo", "Model/C08Inst2.vo", "Model/C08Inst3.vo", "Model/Harness.vo"]
-THEOREM_FILES = ["Props/C08.v", "Props/C08b.v", "Props/C08c.v"]
+# (wave 4) `INCLUDE = ["w4gen"]` (w4-translator's differential stream of the generated ktensor methods) was tested here and passed
+# (66/66 theorems, 8917 cases) but w4gen.py is still changing (04:55: its cases use `isvector` without importing Gen.GenUtils3), so the
+# stream is NOT included; C08 claims the translator's C08_gen_* THEOREM FILES directly (Props/W4C08.v, W4C08b.v, W4C08c.v in THEOREM_FILES / COQ_TARGETS).
+GEN_UNITS = ["GenMethods3", "GenKtensor4", "GenKtensor4b"]     # Props/C08d.v: redistribute over the GENERATED ktensor_redistribute; Props/C08f.v: arrange (absorb branch); Props/C08g.v: update
+COQ_TARGETS = ["Props/W4C08.vo", "Props/W4C08b.vo", "Props/W4C08c.vo", "Props/C08.vo", "Props/C08b.vo", "Props/C08c.vo", "Props/C08d.vo", "Props/C08e.vo", "Props/C08f.vo", "Props/C08g.vo", "Props/C08h.vo", "Model/C08Inst4.vo", "Proofs/C08Gen.vo", "Model/C08Inst.vo", "Model/C08Inst2.vo", "Model/C08Inst3.vo", "Model/Harness.vo"]
+THEOREM_FILES = ["Props/C08.v", "Props/C08b.v", "Props/C08c.v", "Props/C08d.v", "Props/C08e.v", "Props/C08f.v", "Props/C08g.v", "Props/C08h.v",
+                 "Props/W4C08.v", "Props/W4C08b.v", "Props/W4C08c.v"]   # w4-translator: C08_gen_permute_* / _extract_* / _arrange_* / _tovec_* / _update_* (Gen/GenKtensor4.v), C08_gen_from_vector_* (Gen/GenKtensor4b.v)
 COQ_IMPORTS = ("From Coq Require Import List ZArith QArith Qcanon Bool.\n"
-               "From PV Require Import Base.Index Base.Perm Model.Repr Model.Harness Model.C08Kruskal Model.C08Inst Model.C08More Model.C08Inst2 Model.C08Loop Model.C08Inst3.\n")
+               "From PV Require Import Base.Index Base.Perm Model.Repr Model.Harness Model.C08Kruskal Model.C08Inst Model.C08More Model.C08Inst2 Model.C08Loop Model.C08Inst3 Model.C08Loop2 Model.C08Inst4 Proofs.C08Gen.\n")
 RULE = ("Kruskal tensors with 1-4 modes (1-way included), mode sizes 1-4, ranks 1-4, integer factor columns with exactly "
         "representable norms (zero columns included), weights of either sign and zero; every weight_factor (None, each mode, "
         "'all'), sort on/off, both norm types, mode=; every component permutation for R<=4 (thorough; sampled in quick) and "
@@ -43,13 +47,18 @@ CORRESPONDENCE_ONLY = ["score: the congruence / penalty matrix (np.abs(A.T @ B),
                        "case (best_perm and best_score, whenever the greedy choice is pinned = no tie among free cells); the THEOREMS cover the "
                        "greedy loop on an arbitrary matrix (permutation, greedy choice, score sum) and the final arrange(permutation); that the "
                        "matrix entries exceed -10 is a hypothesis (they are products of absolute values and penalties in [0,1])",
-                       "ktensor.symmetrize: C08's executable transliteration k_symmetrize_core (normalize('all'), sign alignment with factor 0, "
-                       "per-flip weight toggle, average, odd-order repair) is compared per case incl. histories; the value theorems (identical "
-                       "factors, symmetric result, factors identical up to column signs keep the value) are C15_ksym_* in Props/C15.v on C15's "
-                       "transliteration k15_core and are not duplicated here",
+                       "ktensor.symmetrize END TO END through normalize('all') on inputs whose factors differ by more than column signs: compared per "
+                       "case incl. histories (C08's transliteration k_symmetrize_core after qk_normalize WAll). PROVED since wave 4: "
+                       "k_symmetrize_core = C15's k15_core on every well-formed cubic input (C08_symmetrize_bridge), the result is symmetric "
+                       "(C08_symmetrize_symmetric), factors identical up to column signs keep the value (C08_symmetrize_keeps, _Qc) — the body after "
+                       "normalize('all'); the composition with normalize('all') for identical factors is C15_ksym_identical_input_keeps",
                        "magnitudes: data scaled by 2^-24 .. 2^24 is exercised by the correspondence stream only (relative tolerances)",
-                       "multi-step histories, memory layouts (C-contiguous / non-contiguous factors) and operand aliasing: compared per case "
+                       "multi-step histories, memory layouts (F, C, matmul result as left by normalize(weight_factor=..), strided C / F views, transposed "
+                       "views, negative strides; assigned or through the constructor with copy=True/False) and operand aliasing: compared per case "
                        "(model state chained through the steps); numpy memory order is not modelled in Coq",
+                       "from_vector, tolist, tovec (hand transliterations; tovec's generated version is bridged to k_tovec by w4-translator: C08_gen_tovec_model in Props/W4C08b.v; the generated "
+                       "from_vector is bridged to a hand reference only), the "
+                       "sign / absorb / sort steps of normalize (array operations in the source, modelled as such): tied by the correspondence stream",
                        "normal form w.r.t. numpy's own norm: the theorems assume the norm oracle satisfies nrm_spec (positively homogeneous, even, "
                        "zero on zero columns; instantiated and proved for the exact 1-norm over Qc); np.linalg.norm itself is tied by the "
                        "per-case evaluation of unit columns / zero weights on pyttb's result"]
@@ -308,6 +317,23 @@ def gen_cases(rng, tier):
             c_.args["lay"] = c08_hist.rand_lay(rng, len(c_.args["f"]))
             if "f2" in c_.args:
                 c_.args["lay2"] = c08_hist.rand_lay(rng, len(c_.args["f2"]))
+            if rng.random() < 0.15:
+                c_.args["ctor"] = rng.choice(["copy", "nocopy"])     # the arrays go through the constructor in that layout
+    # ... and, deterministically, EVERY op stream gets every non-F layout class uniformly on all factors of a case whose factors
+    # have >= 2 rows somewhere and >= 2 columns (where C / F / strided differ): C, M (= after normalize('all')), V, S, T, N
+    by_op = {}
+    for c_ in cases:
+        a_ = c_.args
+        if len(a_["w"]) >= 2 and any(len(A) >= 2 for A in a_["f"]):
+            by_op.setdefault(c_.op, []).append(c_)
+    for op_ in sorted(by_op):
+        pool = by_op[op_]
+        rng.shuffle(pool)
+        for c_, l_ in zip(pool, [l for l in c08_hist.LAYS if l != "F"] * (3 if big else 1)):
+            c_.args["lay"] = [l_] * len(c_.args["f"])
+            c_.args.pop("ctor", None)
+            if "f2" in c_.args:
+                c_.args["lay2"] = [l_] * len(c_.args["f2"])
     # ---- magnitudes: about a quarter of the single-step cases evaluated over Qc run on data scaled by powers of two
     #      (2^-24 .. 2^24, i.e. 6e-8 .. 2e7; weights and / or single factors), compared with RELATIVE tolerances
     for c_ in cases:
@@ -392,8 +418,8 @@ def fso_scores(a):
 # ----------------------------------------------------------------------------------------------------------------
 # pyttb runner
 # ----------------------------------------------------------------------------------------------------------------
-def mk_k(ttb, np, w, f, lay=None):
-    return c08_hist.mk_k(ttb, np, w, f, lay)
+def mk_k(ttb, np, w, f, lay=None, ctor=None):
+    return c08_hist.mk_k(ttb, np, w, f, lay, ctor)
 
 
 def run_impl(c):
@@ -403,7 +429,7 @@ def run_impl(c):
     if c.op == "hist":
         return c08_hist.run_hist(c)
     try:
-        K = mk_k(ttb, np, *c08_hist.eff(a), a.get("lay"))
+        K = mk_k(ttb, np, *c08_hist.eff(a), a.get("lay"), a.get("ctor"))
         if c.op == "normalize":
             K.normalize(weight_factor=a["wf"], sort=a["sort"], normtype=a["normtype"], mode=a["mode"])
             return {"ok": tgen.obs_ktensor(np, K)}
@@ -455,7 +481,7 @@ def run_impl(c):
                 W = W.to_sptensor() if hasattr(W, "to_sptensor") else ttb.sptensor.from_tensor_type(W)
             wsubs, _ = W.find()
             vals = K.mask(W)
-            return {"vals": [tgen.exact(x) for x in np.asarray(vals).ravel()], "subs": [[int(x) for x in row] for row in np.asarray(wsubs)],
+            return {"vals": [tgen.exact(x) for x in np.asarray(vals).ravel()], "subs": ([] if np.asarray(wsubs).size == 0 else [[int(x) for x in row] for row in np.asarray(wsubs)]),
                     "ok": tgen.obs_ktensor(np, K)}
         if c.op == "score":
             L = mk_k(ttb, np, a["w2"], a["f2"], a.get("lay2"))
@@ -538,7 +564,11 @@ def coq_check0(c, o):
         O = gqk(ob["weights"], ob["factors"])
         if c.op == "normalize":
             model = f"qk_normalize {a['normtype']} {gwf(a['wf'])} false {gonat(a['mode'])} K"
-            agree = f"qk_sorted_of (fun G => G) ({model}) O" if a["sort"] and len(a["w"]) > 1 else f"qk_close ({model}) O"
+            # the literal column loops (Model/C08Loop2.v) against the vectorised model, exactly (theorem C08_normalize_loop), and
+            # pyttb against the loop
+            loopm = f"qk_py_normalize {a['normtype']} {gwf(a['wf'])} false {gonat(a['mode'])} K"
+            agree = ((f"qk_sorted_of (fun G => G) ({loopm}) O" if a["sort"] and len(a["w"]) > 1 else f"qk_close ({loopm}) O")
+                     + f" && qk_eqb ({loopm}) ({model})")
             nf = []
             if a["mode"] is None:
                 nf.append("q_nonneg (kweights O)")
@@ -588,7 +618,8 @@ def coq_check0(c, o):
     K = gzk(a["w"], a["f"])
     O = gzk(ob["weights"], ob["factors"])
     if c.op == "fixsigns":
-        return f"let K := {K} in let O := {O} in zk_eqb (zk_fixsigns K) O && zk_den_eqb {shp} K O"
+        # pyttb against the literal column loop (Model/C08Loop2.v) and against the one-shot model (theorem C08_fixsigns_loop)
+        return f"let K := {K} in let O := {O} in zk_eqb (zk_py_fixsigns K) O && zk_eqb (zk_fixsigns K) O && zk_den_eqb {shp} K O"
     if c.op == "permute":
         shp2 = gnlist([shape_of(a["f"])[k] for k in a["order"]])
         od = gnlist(a["order"])
@@ -612,7 +643,9 @@ def coq_check0(c, o):
         idx = [a["idx"]] if isinstance(a["idx"], int) else a["idx"]
         return f"zk_eqb (zk_gather {gnlist(idx)} {K}) {O}"
     if c.op == "redistribute":
-        return f"let K := {K} in let O := {O} in zk_eqb (zk_redistribute {a['mode']} K) O && zk_den_eqb {shp} K O"
+        # hand model, the translator-GENERATED method evaluated on the same literal input (theorem C08_gen_redistribute_model), denotation
+        return (f"let K := {K} in let O := {O} in zk_eqb (zk_redistribute {a['mode']} K) O && zk_den_eqb {shp} K O && "
+                f"match zk_gen_redistribute {gz(a['mode'])} K with Some G => zk_eqb G O | None => false end")
     if c.op in ("add", "sub"):
         L = gzk(a["w2"], a["f2"])
         opz = "Z.add" if c.op == "add" else "Z.sub"
